@@ -1062,7 +1062,11 @@ mod real {
     pub fn op(line: &str) -> String {
         let w: Vec<&str> = line.split_whitespace().collect();
         match w.as_slice() {
-            ["case", n] => format!("case {n}"),
+            ["case", n] => {
+                // tag = scenario family (the case name without its running number)
+                let tag = n.trim_end_matches(|c: char| c.is_ascii_digit()).trim_end_matches('-');
+                format!("case {n} tags={}", if tag.is_empty() { "case" } else { tag })
+            }
             ["await", kind, n_aw, polls, s] => {
                 let kind = match *kind {
                     "ready" => 0,
@@ -1234,8 +1238,8 @@ fn gen(seed: u64, n: usize, path: &str, tier: &str) -> std::io::Result<()> {
                 emit(&mut f, "await3", format!("await {kind} 2 2 {s}"))?;
             }
         }
-        for s in all_interleavings(&[6, 4, 4]) {
-            emit(&mut f, "chan3", format!("chan 3 2,2 {s}"))?;
+        for s in all_interleavings(&[4, 4, 4]) {
+            emit(&mut f, "chan3", format!("chan 2 2,2 {s}"))?;
         }
     }
     // random part
